@@ -264,9 +264,11 @@ static std::vector<Plan> c08_fixed(int tier) {
     // every extension of the ClientHello duplicated in turn (second copy intact, cut short, altered, emptied), clients that send server_name / ALPN included
     for (int ver = 0; ver < 5; ver++) {
         for (int which = 0; which < (tier ? 14 : 10); which++) {
-            for (int var = 0; var < 6; var++) {
+            for (int vi = 0; vi < 8; vi++) {
+                int var = vi < 6 ? vi : vi == 6 ? 18 : 42;       // 18 / 42: the intact copy inserted 4 / 8 times
                 if (!tier && ver >= 3 && var % 2) { continue; }
-                Plan p; p.seed = 79500 + (uint64_t) ((ver * 14 + which) * 6 + var);
+                if (vi >= 6 && ver >= 3) { continue; }
+                Plan p; p.seed = 79500 + (uint64_t) ((ver * 14 + which) * 6 + vi) + (vi >= 6 ? 7000 : 0);
                 p.cfg["ver"] = ver; p.cfg["sni"] = 2; p.scfg["expected_name"] = "localhost";
                 if (ver == 2) { p.cfg["suite"] = TLS_AES_128_GCM_SHA256; p.cfg["sid_kind"] = KK_EC256; } else { p.cfg["suite"] = TLS_ECDHE_RSA_WITH_AES_128_CBC_SHA; }
                 if (ver >= 3) { p.cfg["pmtu"] = 1500; }
